@@ -104,6 +104,17 @@ def replay_tool(pid, q, rec, bld):
             return {'status': 'error', 'detail': 'native build failed: ' + r.stdout[-600:]}
         good = 'eyJhbGciOiJub25lIn0.e30.'       # {"alg":"none"} . {} . (empty): verifies on a keyless checker
         bad = 'a.b.c'
+        if 'LINES' in defs:
+            # line handling: the counterexample says whether the last line lacks its newline; the
+            # real tool is fed that many GOOD tokens in the same framing and must exit 0
+            n = int(defs.get('NTOK', 2))
+            unterminated = bool(_scalar(rec, 'last_unterminated', 0)) or any(
+                i['lhs'] == 'has_nl' and _val(i) == 0 for i in rec.get('inputs', []))
+            text = '\n'.join([good] * n) + ('' if unterminated else '\n')
+            rr = subprocess.run([exe, '-q', '-'], input=text, stdout=subprocess.PIPE, stderr=subprocess.STDOUT, text=True)
+            return {'status': 'confirmed' if rr.returncode != 0 else 'not-reproduced',
+                    'command': 'printf %r | jwt-verify -q -' % text, 'exit_status': rr.returncode,
+                    'expected': 'exit 0: every line is a token that verifies (alg none, keyless checker)'}
         if 'SIDE_EXIT' in defs:
             n = int(defs.get('NTOK', 2))
             f = _scalar(rec, 'failures', n)
